@@ -91,6 +91,10 @@ static var type_by_name(const char* s) {
   if (!strcmp(s, "Tree")) return Tree;
   if (!strcmp(s, "Function")) return Function;
   if (!strcmp(s, "Type")) return Type;
+  if (!strcmp(s, "Box")) return Box;
+  if (!strcmp(s, "Range")) return Range;
+  if (!strcmp(s, "File")) return File;
+  if (!strcmp(s, "Mutex")) return Mutex;
   if (!strcmp(s, "U0")) return U0;
   if (!strcmp(s, "U1")) return U1;
   return NULL;
@@ -109,7 +113,10 @@ static var P_I1, P_I2, P_I3, P_I4, P_I5, P_I6, P_I7, P_I8;   /* distinct: a Tupl
 static var proto(var T, int n) {
   if (T is Int) return new_raw(Int, $I(40 + n));
   if (T is Float) return new_raw(Float, $F(1.5 + n));
-  if (T is String) return new_raw(String, n ? $S("second prototype string") : $S("hello, cello: a heap string"));
+  if (T is String) {
+    if (n >= 2) { char b[64]; snprintf(b, sizeof b, "key number %d of a grown container", n); return new_raw(String, $S(b)); }
+    return new_raw(String, n ? $S("second prototype string") : $S("hello, cello: a heap string"));
+  }
   if (T is Ref) return new_raw(Ref, n ? P_I2 : P_I1);
   if (T is Tuple) return n ? new_raw(Tuple, P_I3, P_I2, P_I1) : new_raw(Tuple, P_I1, P_I2, P_I3);
   if (T is Array) return n ? new_raw(Array, Int, $I(9)) : new_raw(Array, Int, $I(1), $I(2));
@@ -127,7 +134,9 @@ static var ctor_args(var T) {
   if (T is Tuple) return new_raw(Tuple, P_I1, P_I2, P_I3);
   if (T is Array or T is List) return new_raw(Tuple, Int, P_I1, P_I2);
   if (T is Table or T is Tree) return new_raw(Tuple, Int, Int, P_I1, P_I2);
-  if (T is U1) return new_raw(Tuple);
+  if (T is U1 or T is File or T is Mutex) return new_raw(Tuple);
+  if (T is Box) return new_raw(Tuple, new_raw(Int, $I(77)));
+  if (T is Range) return new_raw(Tuple, P_I3);
   if (T is Type) return new_raw(Tuple, new_raw(String, $S("RT")), new_raw(Int, $I(16)));
   return new_raw(Tuple, proto(T, 0));
 }
@@ -260,12 +269,25 @@ static void run_case(char* line) {
 
   try {
     if (isview) {
-      if (!strcmp(pa, "Array")) cont = new_raw(Array, T, proto(T, 0), proto(T, 1));
-      else if (!strcmp(pa, "List")) cont = new_raw(List, T, proto(T, 0), proto(T, 1));
-      else if (!strcmp(pa, "TableK") || !strcmp(pa, "TableV")) cont = new_raw(Table, K, V, proto(K, 0), proto(V, 0), proto(K, 1), proto(V, 1));
-      else if (!strcmp(pa, "TreeK") || !strcmp(pa, "TreeV")) cont = new_raw(Tree, K, V, proto(K, 0), proto(V, 0), proto(K, 1), proto(V, 1));
+      if (!strncmp(pa, "Array", 5)) cont = new_raw(Array, T, proto(T, 0), proto(T, 1));
+      else if (!strncmp(pa, "List", 4)) cont = new_raw(List, T, proto(T, 0), proto(T, 1));
+      else if (!strncmp(pa, "Table", 5)) cont = new_raw(Table, K, V, proto(K, 0), proto(V, 0), proto(K, 1), proto(V, 1));
+      else if (!strncmp(pa, "Tree", 4)) cont = new_raw(Tree, K, V, proto(K, 0), proto(V, 0), proto(K, 1), proto(V, 1));
     }
   } catch (ex) { exn = ex; }
+  /* "+g": the container has grown (reallocation, rehash: elements and their headers were moved) and shrunk again */
+  if (!exn && cont && strstr(pa, "+g")) {
+    try {
+      if (!strncmp(pa, "Array", 5) || !strncmp(pa, "List", 4)) {
+        for (int i = 0; i < 24; i++) push(cont, proto(T, i & 1));
+        for (int i = 0; i < 5; i++) pop_at(cont, $I(0));
+        push_at(cont, proto(T, 0), $I(1));
+      } else {
+        for (int i = 2; i < 26; i++) set(cont, proto(K, i), proto(V, i & 1));
+        for (int i = 2; i < 9; i++) rem(cont, proto(K, i));
+      }
+    } catch (ex) { exn = ex; }
+  }
   if (exn) { P("PRODFAIL container %s", exn_name(exn)); return; }
   if (isview && !cont) { P("BADCASE container"); return; }
 
@@ -278,6 +300,9 @@ static void run_case(char* line) {
   var st_func = $(Function, f_ident);
   var st_u0 = $(U0, 1, 2);
   var st_u1 = $(U1, 3);
+  var st_box = $B(new_raw(Int, $I(78)));
+  var st_range = $(Range, $I(0), 0, 3, 1);
+  var st_file = $(File, NULL);
   var fn_ident = $(Function, f_ident);
   var dummy_arr = new_raw(Array, Int, $I(1), $I(2), $I(3));
   var v_range = range($I(3));
@@ -287,7 +312,8 @@ static void run_case(char* line) {
   var v_zip = zip(dummy_arr, v_range);
   var st_obj =
     T is Int ? st_int : T is Float ? st_float : T is String ? st_str : T is Ref ? st_ref :
-    T is Tuple ? st_tuple : T is Function ? st_func : T is U0 ? st_u0 : T is U1 ? st_u1 : NULL;
+    T is Tuple ? st_tuple : T is Function ? st_func : T is U0 ? st_u0 : T is U1 ? st_u1 :
+    T is Box ? st_box : T is Range ? st_range : T is File ? st_file : NULL;
   /* (struct Array, List, Table, Tree are private to their .c files: no stack form exists) */
   var tp_stack = tuple(st_obj, P_I1);
   var tp_other = NULL;
@@ -304,7 +330,7 @@ static void run_case(char* line) {
     else if (!strcmp(pk, "static")) e = !strcmp(pa, "b") ? String : U0;
     else if (!strcmp(pk, "rtype")) e = new_raw_with(Type, ctor_args(Type));
     else if (!strcmp(pk, "get")) {
-      if (!strcmp(pa, "Array") || !strcmp(pa, "List")) e = get(cont, $I(1));
+      if (!strncmp(pa, "Array", 5) || !strncmp(pa, "List", 4)) e = get(cont, $I(1));
       else e = get(cont, proto(K, 1));
     }
     else if (!strcmp(pk, "iter")) e = iter_init(cont);
